@@ -25,7 +25,7 @@ try:
     meta['pinned_suite'] = {'passed': passed, 'failed': failed, 'errors': [l for l in o.split('\n') if l.startswith('error')][:3]}
     shutil.rmtree(tmp + '/target', ignore_errors=True)
     rc, o = sh('git diff --stat | tail -1', wt); meta['diffstat'] = o.strip()
-    e3 = dict(os.environ, VERIF_REPO=wt, VERIF_NO_EVIDENCE='1', VERIF_CACHE='/var/tmp/nuverif-selftest-cache')
+    e3 = dict(os.environ, VERIF_REPO=wt, VERIF_NO_EVIDENCE='1', VERIF_CACHE=tmp + '/cache')
     fired = {}
     for p in [f'C{i:02d}' for i in range(1, 17)]:
         t0 = time.time()
